@@ -269,3 +269,22 @@ Proof.
   - destruct P.
 Qed.
 Print Assumptions safe_sound.
+
+(* ---------- CLI commands: an uncaught exception is an error report too (traceback, exit status 1), so a raise may
+   escape - but only while the output is untouched ---------- *)
+Definition safe_cli (ss : list stmt) : bool :=
+  match chk (size ss) false ss with Some (false, false, _) => true | _ => false end.
+Theorem safe_cli_sound ss : safe_cli ss = true -> forall o,
+  let '(oc, w', _) := run (size ss) ss w0 o 0 in
+  (oc = RetOk \/ ((oc = RetErr \/ oc = Raised) /\ w' = w0)) /\ stdout_used w' = false.
+Proof.
+  unfold safe_cli. intros H o. destruct (chk (size ss) false ss) as [[[c d] r]|] eqn:E; [|discriminate].
+  destruct c, d; try discriminate.
+  pose proof (chk_sound (size ss) ss false w0 o 0 false false r (le_n _) E (conj eq_refl (fun _ => eq_refl))) as P.
+  destruct (run (size ss) ss w0 o 0) as [[oc w'] k']. destruct P as [Hs P]. split; auto.
+  destruct oc; auto.
+  - destruct P as [[_ F]|F]; discriminate.
+  - destruct P as [_ ->]. right. split; auto.
+  - destruct P.
+Qed.
+Print Assumptions safe_cli_sound.
